@@ -371,7 +371,7 @@ fn c15_reftable_entry() {
 }
 
 // @harness c15_dirty_blocks
-// @props C15 C16
+// @props C15 C16 C02
 // @tier quick
 // @timeout 600
 // @desc top-table dirty-block queue (RefTable instantiation): after set_dirty on up to 3 arbitrary entries, the queue pops each dirty block exactly once, block idx == (8*i) >> bs_bits for a marked entry, the byte range [idx<<bs, (idx+1)<<bs) contains that entry, and the queue is empty afterwards; pop_dirty_blk_idx(Some(x)) removes exactly x
